@@ -232,6 +232,7 @@ class Runner:
         PathNode = pp.PathNode
         ev = []
         viol = []
+        switches = []
         r = pp.RRTStar(tm(list(START)))
         r.iterations = cfg["budget"]
         r.dmode = cfg["dmode"]
@@ -292,6 +293,9 @@ class Runner:
                         for more in cfg.get("regrow", ()):
                             # a planner that is used again: the same tree grown by `more` further iterations, then queried
                             r.iterations = more
+                            if cfg.get("switch_dmode"):
+                                r.dmode = 1 - r.dmode
+                                switches.append(sum(1 for e in ev if e[0] == "draw"))
                             path = r.findPathGeneral(lambda: r.generalGenerateTree(gen, dist, coll), goal)
                     else:
                         r.bounds = [list(b) for b in self.bounds]
@@ -306,6 +310,9 @@ class Runner:
                         path = r.findPath(goal)
                         for more in cfg.get("regrow", ()):
                             r.iterations = more
+                            if cfg.get("switch_dmode"):
+                                r.dmode = 1 - r.dmode
+                                switches.append(sum(1 for e in ev if e[0] == "draw"))
                             path = r.findPath(goal)
                 except HorizonReached:
                     hit = True
@@ -349,9 +356,13 @@ class Runner:
                          "case": case, "quantities": {"iterations": cfg["budget"]}})
             return {"key": None, "violations": viol, "stats": {"raised": 1}}
         total_budget = cfg["budget"] + sum(cfg.get("regrow", ()))
-        found = ti.check_structure(nodes, START, None if hit else total_budget, count_reported, self.dist, blocked)
+        dist_oracle = self.dist
+        if switches:
+            m0, m1 = (ti.euclid3, self._arc) if cfg["dmode"] == 0 else (self._arc, ti.euclid3)
+            dist_oracle = ti.PhaseDist([m0, m1, m0, m1][:len(switches) + 1], switches, ev)
+        found = ti.check_structure(nodes, START, None if hit else total_budget, count_reported, dist_oracle, blocked)
         try:
-            f2, stats = ti.replay_insertions(START, ev, nodes, DMIN, DMAX, cfg["nnl"], self.dist, blocked, complete=not hit)
+            f2, stats = ti.replay_insertions(START, ev, nodes, DMIN, DMAX, cfg["nnl"], dist_oracle, blocked, complete=not hit)
         except ValueError as e:
             f2, stats = [{"clause": "insertion_log", "observed": str(e), "detail": None}], {}
         found += f2
@@ -400,7 +411,7 @@ def mk(part, layout, dmode, nnl, budget, seed, **kw):
     cfg.update(kw)
     tag = "spine" if kw.get("spine") else (kw["active"] if part == "b" else "menu")
     cfg["name"] = "%s/%s/%s/d%d/k%d/n%d%s/h+%d/%s" % (part, tag, layout, dmode, nnl, budget,
-                                                   "".join("+%d" % m for m in kw.get("regrow", ())), kw.get("slack", 3),
+                                                   "".join("+%d" % m for m in kw.get("regrow", ())) + ("~" if kw.get("switch_dmode") else ""), kw.get("slack", 3),
                                                    "all" if kw.get("bound") is None else "dev%d" % kw["bound"])
     return cfg
 
@@ -428,6 +439,11 @@ def plan(tier, seed):
         out.append((mk("a", l, d, k, 3, seed, spine=True, bound=1, slack=1, regrow=(1, 1)), 3))
     for l, d, k in (cover if thorough else cover[:2]):
         out.append((mk("b", l, d, k, 2, seed, active="xy", bound=1, slack=1, regrow=(1,)), 3))
+    # ... and with the distance mode switched between the growths (nodes of the second growth are judged in the new mode)
+    for l, d, k in (cross if thorough else cover):
+        out.append((mk("a", l, d, k, 2, seed, bound=None, slack=1, regrow=(1,), switch_dmode=True), 3))
+    for l, d, k in (cover if thorough else cover[:2]):
+        out.append((mk("b", l, d, k, 2, seed, active="xy", bound=1, slack=1, regrow=(1,), switch_dmode=True), 3))
     # (b) default generateTree/findPath, random.uniform scripted per coordinate
     for l, d, k in cross:
         out.append((mk("b", l, d, k, 1, seed, active="xy", bound=None, slack=2), 1))
